@@ -89,12 +89,22 @@ def run_uncached(repo, wanted, reg):
             cmd += ['--harness', h['name']]
         out['cmd'] = ' '.join(cmd)
         env = dict(os.environ, CARGO_NET_OFFLINE='true')
+        # Kani's own --harness-timeout did not stop a runaway CBMC here: watchdog on the whole run (own process group, killed on
+        # expiry); harnesses that produced no verdict by then are reported 'not-run' (undecided for their properties)
+        import signal
+        budget = 900 if all(h['tier'] == 'quick' for h in wanted) else 2400
+        pr = subprocess.Popen(cmd, cwd=d, stdout=subprocess.PIPE, stderr=subprocess.PIPE, text=True, env=env, start_new_session=True)
         try:
-            p = subprocess.run(cmd, cwd=d, capture_output=True, text=True, env=env, timeout=3600)
-            txt = p.stdout + '\n' + p.stderr
-        except subprocess.TimeoutExpired as e:
-            txt = (e.stdout or '') + '\nTIMEOUT'
-        out['exit'] = getattr(p, 'returncode', -1) if 'p' in dir() else -1
+            so, se = pr.communicate(timeout=budget)
+            txt = so + '\n' + se
+        except subprocess.TimeoutExpired:
+            try:
+                os.killpg(pr.pid, signal.SIGKILL)
+            except Exception:
+                pass
+            so, se = pr.communicate()
+            txt = (so or '') + '\n' + (se or '') + '\nWATCHDOG: run killed after %d s' % budget
+        out['exit'] = pr.returncode
         try:
             os.makedirs(os.path.join(VERIF, 'gen'), exist_ok=True)
             open(os.path.join(VERIF, 'gen', 'kani_last_output.txt'), 'w').write(txt)
